@@ -664,6 +664,9 @@ def judge_multi(group_roots, impl_line, model_line):
                 out.append(("violation", "resolution succeeds although a marker of the root is rejected on its own", sx(r), sx([b"err"])))
             else:
                 for i, (g, sp_, b) in enumerate(zip(gos, sps, r[1:])):
+                    if root[i].get("shape", 0) == 5 and b and not g[1]:
+                        # asked for plainly as well: the value of the marker without extras (first entry of the grid)
+                        g = ("ok", parse_sx(root[i]["impl"])[2][0])
                     if b != g[1]:
                         req = sp_[1] if sp_ == g else g[1]
                         out.append(("violation", "a guarded edge is not followed exactly when ITS marker holds: marker %d of the root "
@@ -702,7 +705,7 @@ def shrink_multi(ctx, group, kind):
 
 def multi_input(group):
     return {"kind": "marker_multi",
-            "shapes": "0 root->mid[extras]->(marker)g; 1 root->(marker)g; 2 root->a->mid[extras], root->b->mid[extras2], mid->(marker)g; "
+            "shapes": "5 root->helper->root[extras], root->(marker)g (followed when the marker holds plainly or for the extras); 0 root->mid[extras]->(marker)g; 1 root->(marker)g; 2 root->a->mid[extras], root->b->mid[extras2], mid->(marker)g; "
                       "3 root->mid[extras]->(marker)g[zz], g->(extra=='zz')h; 4 root->q,mid[extras]; q 2.0->mid[extras2],zmissing==9 (rejected), q 1.0",
             "roots": [[{"marker": s8(c["text"]), "shape": c.get("shape", 0), "extras": [s8(e) for e in c.get("ex1", c["extras"])],
                         "extras2": [s8(e) for e in c.get("ex2", [])], "tree": sx(c["tree"])} for c in root] for root in group],
@@ -749,8 +752,13 @@ def check_multi(ctx, rng, ref, env, env_json):
                 e2 = ([rng.choice(lits)] if lits and rng.random() < 0.8 else []) + G.gen_extras_request(rng)
                 e1 = [e for e in (G.gen_extras_request(rng) or [b"docs"]) if e not in e2]
                 items.append((m, e1, 4, e2 or [b"dev"]))
-            else:
+            elif r2 < 0.95:
                 items.append((m, G.gen_extras_request(rng), 3, []))                        # the guarded requirement enables an extra
+            else:
+                # the root itself is asked for with extras through a cycle; prefer the extras its marker mentions
+                lits = [G.atom_parts(a)[2] for a in G.tree_atoms(m) if G.atom_parts(a)[0] == G.EXTRA and b"," not in G.atom_parts(a)[2]]
+                e5 = ([rng.choice(lits)] if lits and rng.random() < 0.8 else []) + G.gen_extras_request(rng)
+                items.append((m, e5 or [b"dev"], 5, []))
         if rng.random() < 0.3:
             items.append((items[0][0], G.gen_extras_request(rng), 0, []))     # the same marker under other extras
         rng.shuffle(items)
@@ -759,6 +767,11 @@ def check_multi(ctx, rng, ref, env, env_json):
     flat_t, flat_e, flat_s = [], [], []
     for _, roots in bases:
         for root in roots:
+            # a cycle back to the root asks for the ROOT with extras: one such item per root, and no other marker on the
+            # root's own requirements beside it (it would be evaluated for those extras too)
+            if any(it[2] == 5 for it in root):
+                first = [i for i, it in enumerate(root) if it[2] == 5][0]
+                root[:] = [it if (i == first or it[2] not in (1, 5)) else (it[0], it[1], 0, []) for i, it in enumerate(root)]
             for t, e, shape, e2 in root:
                 flat_t.append(t)
                 # the extras with which the package carrying the guarded requirement is asked for
